@@ -190,6 +190,13 @@ def register(M):
         return IMPLIES(exists([x], Px), exists([m], AND(Pm, forall([w], IMPLIES(Pw, Z(km) <= Z(kw_))))))
     B['least_exists'] = b_least_exists
 
+    def b_independent(args, kw, st, node):
+        a, b = args
+        if isinstance(a, Ref) and isinstance(b, Ref):
+            return a.oid != b.oid and a.origin == 'fresh' and b.origin == 'fresh'
+        return True
+    B['independent'] = b_independent
+
     def b_fresh(args, kw, st, node):
         return True
     B['is_fresh'] = b_fresh
